@@ -444,4 +444,53 @@ theorem multiCrash_spec (s : Svc) (hp : s.persist = true) (hc : Coherent s) (ops
       rw [silentFrom_append]
       exact h5 _ T id hw.2 (crashAt_informedAt s hp b T id h ops k j hw.1)
 
+
+/-! ### storage failures -/
+
+theorem frun_no_failures (s : Svc) (ops : List Op) : frun s (ops.map (fun op => (op, 0))) = run s ops := by
+  induction ops generalizing s with
+  | nil => rfl
+  | cons op rest ih =>
+    simp only [List.map_cons, frun, List.foldl_cons, run] at *
+    rw [ih]; rfl
+
+/-- an operation whose (only) transaction fails: the disk is untouched, memory and handlers are not -/
+theorem fstep_failed (s : Svc) (op : Op) :
+    (fstep s (op, 1)).disk = s.disk ∧ (fstep s (op, 1)).persist = s.persist ∧
+    (fstep s (op, 1)).told = s.told ++ toldStep op ∧ (fstep s (op, 1)).closed = closedStep s.closed op := by
+  rcases op with ⟨T, id, l, t⟩ | ⟨T, id, l, t⟩ | T | T | T
+  · by_cases hl : l = 0 <;> by_cases hc : s.closed T = true <;>
+      simp [fstep, FOp.micros, failTx, failTx.go, Op.micros, collectMicros, Micro.isTx, runMicros, exec, toldStep,
+        closedStep, hl, hc] <;>
+      (funext T'; simp [setFlag]; intro h1 h2; subst h2; simp_all)
+  all_goals
+    simp [fstep, FOp.micros, failTx, failTx.go, Op.micros, updateMicros, Micro.isTx, runMicros, exec, toldStep, closedStep]
+
+theorem fstep_ok (s : Svc) (op : Op) : fstep s (op, 0) = step s op := rfl
+
+/-- With failures injected anywhere: the disk tracks the operations that were NOT reported as failed. -/
+theorem frun_disk_level (s : Svc) (hp : s.persist = true) (fops : List FOp) (hf : ∀ f ∈ fops, f.2 ≤ 1)
+    (T id : String) :
+    (frun s fops).disk.level T id = lastLevelFrom (s.disk.level T id) (effective fops) T id ∧
+    (frun s fops).persist = true := by
+  induction fops generalizing s with
+  | nil => exact ⟨rfl, hp⟩
+  | cons f rest ih =>
+    obtain ⟨op, n⟩ := f
+    have hn : n ≤ 1 := hf (op, n) (by simp)
+    have hrest : ∀ f ∈ rest, f.2 ≤ 1 := fun f hfm => hf f (by simp [hfm])
+    simp only [frun, List.foldl_cons] at *
+    rcases Nat.le_one_iff_eq_zero_or_eq_one.mp hn with h0 | h1
+    · subst h0
+      have := ih (step s op) (by rw [step_persist]; exact hp) hrest
+      rw [fstep_ok, this.1, step_disk s hp, diskStep_level]
+      refine ⟨?_, this.2⟩
+      simp [effective, lastLevelFrom_eq, List.foldl_cons]
+    · subst h1
+      obtain ⟨hd, hpp, _, _⟩ := fstep_failed s op
+      have := ih (fstep s (op, 1)) (by rw [hpp]; exact hp) hrest
+      rw [this.1, hd]
+      refine ⟨?_, this.2⟩
+      simp [effective]
+
 end Kap.C08
